@@ -1,9 +1,88 @@
-//! Non-SQL case kinds (execution stack walk, CSV decoder feed, ...).
+//! Non-SQL case kinds: direct replays of TLC-generated behaviours into engine components.
 
+use glaredb_core::execution::operators::{PollExecute, PollFinalize};
+use glaredb_core::execution::verif_exports::{Effects, ExecutionStack, StackControlFlow};
+use glaredb_error::{DbError, Result};
 use serde_json::{Value, json};
 
 pub fn run(kind: &str, case: &Value) -> Value {
     match kind {
+        "exec_stack" => exec_stack(case),
         _ => json!({"id": case["id"], "fatal": format!("unknown case kind {kind}")}),
     }
+}
+
+/// Scripted Effects: returns the next poll result of the script, records the call.
+struct Scripted<'a> {
+    polls: &'a [String],
+    pos: usize,
+    calls: Vec<(String, usize, String)>,
+}
+
+impl Effects for Scripted<'_> {
+    fn handle_execute(&mut self, op_idx: usize) -> Result<PollExecute> {
+        let p = self.polls.get(self.pos).cloned().unwrap_or_default();
+        self.pos += 1;
+        self.calls.push(("exec".into(), op_idx, p.clone()));
+        Ok(match p.as_str() {
+            "ready" => PollExecute::Ready,
+            "pending" => PollExecute::Pending,
+            "needs_more" => PollExecute::NeedsMore,
+            "has_more" => PollExecute::HasMore,
+            "exhausted" => PollExecute::Exhausted,
+            other => return Err(DbError::new(format!("script: bad execute poll '{other}'"))),
+        })
+    }
+
+    fn handle_finalize(&mut self, op_idx: usize) -> Result<PollFinalize> {
+        let p = self.polls.get(self.pos).cloned().unwrap_or_default();
+        self.pos += 1;
+        self.calls.push(("fin".into(), op_idx, p.clone()));
+        Ok(match p.as_str() {
+            "finalized" => PollFinalize::Finalized,
+            "needs_drain" => PollFinalize::NeedsDrain,
+            "pending" => PollFinalize::Pending,
+            other => return Err(DbError::new(format!("script: bad finalize poll '{other}'"))),
+        })
+    }
+}
+
+/// case: {"n": operators, "polls": [poll results in call order]}
+/// Drives ExecutionStack::pop_next once per scripted poll and records, per step, the Effects
+/// call the stack made and the control flow it returned.
+fn exec_stack(case: &Value) -> Value {
+    let n = case["n"].as_u64().unwrap_or(2) as usize;
+    let polls: Vec<String> = case["polls"]
+        .as_array()
+        .map(|a| a.iter().map(|x| x.as_str().unwrap_or("").to_string()).collect())
+        .unwrap_or_default();
+    let mut stack = ExecutionStack::new(n);
+    let mut eff = Scripted { polls: &polls, pos: 0, calls: Vec::new() };
+    let mut steps = Vec::new();
+    // one pop_next per scripted poll; a "none" poll means "pop on an empty stack"
+    for _ in 0..polls.len() {
+        let before = eff.calls.len();
+        let cf = match stack.pop_next(&mut eff) {
+            Ok(StackControlFlow::Continue) => "continue",
+            Ok(StackControlFlow::Finished) => "finished",
+            Ok(StackControlFlow::Pending) => "pending",
+            Err(_) => "error",
+        };
+        let call = if eff.calls.len() > before {
+            let c = &eff.calls[before];
+            json!([c.0, c.1, c.2])
+        } else {
+            // no Effects call was made: the poll slot was not consumed
+            json!(["none", 0, "none"])
+        };
+        if eff.calls.len() == before {
+            // keep script and calls aligned: an unconsumed slot must itself be a "none" slot
+            eff.pos += 1;
+        }
+        steps.push(json!({"call": call, "cf": cf}));
+        if cf == "finished" || cf == "error" {
+            break;
+        }
+    }
+    json!({"id": case["id"], "steps": steps})
 }
